@@ -39,3 +39,35 @@ Section Eval.
     | PLet a body => eval (env ++ [eval env a]) body
     end.
 End Eval.
+
+(* ---- wire format: a program as a list of integers in prefix order (the Rust interpreter reads the same list) ----
+   [0; i] variable   [1; c] constant   [2; u; <a>] unary   [3; b; <a>; <c>] binary   [4; b; c; <a>] scalar right operand
+   [5; n; <a>] integer power   [6; <a>; <body>] let *)
+Definition unop_of_Z (z : Z) : unop :=
+  match z with
+  | 0 => U_neg | 1 => U_recip | 2 => U_sqrt | 3 => U_cbrt | 4 => U_exp | 5 => U_exp2 | 6 => U_exp_m1 | 7 => U_ln | 8 => U_log2 | 9 => U_log10
+  | 10 => U_ln_1p | 11 => U_sin | 12 => U_cos | 13 => U_tan | 14 => U_asin | 15 => U_acos | 16 => U_atan | 17 => U_sinh | 18 => U_cosh
+  | 19 => U_tanh | 20 => U_asinh | 21 => U_acosh | _ => U_atanh
+  end%Z.
+Definition binop_of_Z (z : Z) : binop := match z with 0 => B_add | 1 => B_sub | 2 => B_mul | _ => B_div end%Z.
+Fixpoint dec_prog (fuel : nat) (l : list Z) : prog * list Z :=
+  match fuel with
+  | O => (PConst 0, l)
+  | S k =>
+    match l with
+    | 0 :: i :: r => (PVar (Z.to_nat i), r)
+    | 1 :: c :: r => (PConst c, r)
+    | 2 :: u :: r => let '(a, r) := dec_prog k r in (PUn (unop_of_Z u) a, r)
+    | 3 :: b :: r => let '(a, r) := dec_prog k r in let '(c, r) := dec_prog k r in (PBin (binop_of_Z b) a c, r)
+    | 4 :: b :: c :: r => let '(a, r) := dec_prog k r in (PScal (binop_of_Z b) a c, r)
+    | 5 :: n :: r => let '(a, r) := dec_prog k r in (PPowi a n, r)
+    | 6 :: r => let '(a, r) := dec_prog k r in let '(c, r) := dec_prog k r in (PLet a c, r)
+    | _ => (PConst 0, l)
+    end%Z
+  end.
+(* a length-prefixed program at the head of a list of integers *)
+Definition rd_prog (l : list Z) : prog * list Z :=
+  match l with
+  | n :: r => (fst (dec_prog (S (Z.to_nat n)) (firstn (Z.to_nat n) r)), skipn (Z.to_nat n) r)
+  | nil => (PConst 0%Z, nil)
+  end.
